@@ -2,7 +2,8 @@
 CFG = {
     "translator": True,
     "count": {"quick": 48000, "thorough": 2400000},
-    "lean_files": ['GeoModel/Gen/Kernel.lean', 'GeoProofs/Lemmas/GenKernel.lean', "GeoModel/Intersects.lean", "GeoModel/Contains.lean", "GeoModel/Locate.lean", "GeoModel/Segment.lean",
+    "lean_files": ['GeoModel/Gen/Kernel.lean', 'GeoProofs/Lemmas/GenKernel.lean', 'GeoModel/TRANPrelude.lean', 'GeoModel/Gen/CoordPosGen.lean',
+                   'GeoProofs/Lemmas/TRANCoordPos.lean', 'GeoModel/Gen/AreaGen.lean', 'GeoModel/Gen/DimsGen.lean', 'GeoProofs/Lemmas/TRANArea.lean', "GeoModel/Intersects.lean", "GeoModel/Contains.lean", "GeoModel/Locate.lean", "GeoModel/Segment.lean",
                    "GeoModel/RelateSpec.lean", "GeoModel/Valid.lean", "GeoModel/Gen/Masks.lean", "GeoModel/Gen/Enums.lean",
                    "GeoModel/Ops/C02.lean", "GeoProofs/Lemmas/SegmentSpec.lean", "GeoProofs/Lemmas/RingSpec.lean",
                    "GeoProofs/Lemmas/LocateLemmas.lean", "GeoProofs/Lemmas/C02QContains.lean", "GeoProofs/Lemmas/C02QWinding.lean",
@@ -15,7 +16,11 @@ CFG = {
             "the executable DE-9IM spec / exact point location). Invalid operands are SKIPped. distinct by input text; bbox-disjoint pairs are tagged triv.",
     "trusted_base": [
         "spec adequacy S1/S2 as for C01 (the DE-9IM spec and exact point location are definitions, not derived from point-set topology)",
-        "translator/rs2lean.py (regenerates the mask predicates and enum declaration orders from the Rust source on every run)",
+        "translator/rs2lean.py + rsexpr.py (regenerate the mask predicates, enum declaration orders, the Rect/Line kernels and — statement fragment — "
+        "every calculate_coordinate_position body, coord_pos_relative_to_ring and the provided coordinate_position method from the Rust source on every run); "
+        "its explicit semantic choices (GeoModel/TRANPrelude.lean): Vec = List, usize/i32 counters = Nat/Int without overflow, Option::unwrap and "
+        "partial_cmp().unwrap() total (panics are observed by the harness, not modelled), debug_assert! compiled out (release build), "
+        "Vec indexing only under a dominating length guard, method resolution by the receiver's static type chosen per job",
     ],
     "assumptions": ["valid operands (GeoModel/Valid.lean); grid coordinates; degenerate (zero-area) Rect/Triangle operands are outside the stream"],
 }
@@ -58,7 +63,14 @@ MANIFEST = {
             "one-coordinate case) and the fixed MultiLineString::contains(Point) (all member lists) equal the mask on the specification; Rect::contains(Rect) "
             "<=> every point of the inner closed rect is in the outer one (witness: not the DE-9IM mask for a zero-width Rect, K7); Line::contains(Line) <=> both "
             "end points <=> every point of the inner segment on the outer one (inner line a single point: located in the interior of the outer line). "
-            "Each generated case is compared three ways (implementation = model, implementation = specification).",
+            "Each generated case is compared three ways (implementation = model, implementation = specification). "
+            "Translator ties (TRAN): the accumulator model is no longer only hand-written — ringPos_eq_source (coord_pos_relative_to_ring whole: prologue, "
+            "winding loop with early return, final test), calculateCoordinatePosition_eq_source (the calculate_coordinate_position bodies of Coord, Point, "
+            "Line, LineString, Triangle, Rect, MultiPoint, Polygon incl. the loop over interiors, MultiLineString, MultiPolygon, GeometryCollection as state transformers "
+            "PosAcc -> PosAcc) and coordinatePosition_eq_source (the provided trait method) state that calcPoint / calcLine / calcLineString / "
+            "calcTriangle / calcRect / calcPolygon+calcHoles / calcMultiPolygon / coordPos equal the terms regenerated from the Rust bodies on this run; "
+            "contains_kernels_eq_source does the same for Line::contains(Coord), Line::contains(Line), Rect::contains(Polygon) (loop with early return and "
+            "counter) and Triangle::intersects(Coord) (unrolled to_lines().map, sort = sort3, windows(2).any).",
     "note": "Trusted: Lean kernel + audited axioms; translator; harness (sampling); spec adequacy. Repaired in /repo by this work: Triangle coordinate_position "
             "(29720670), MultiPolygon shared vertex (5f41a6da), MultiPolygon::contains(MultiPoint) (d4024e6e), MultiLineString::contains(Point) (81f1ade9). "
             "Open: K9 coordinate_position(MultiLineString) at an end point shared by an even number of members (an existing unit test pins that behaviour).",
